@@ -100,7 +100,7 @@ package proxy
 //@   ensures [one] ((endsSlash(a) != startsSlash(b)) || (!endsSlash(a) && b == "")) ==> result == a + b
 //@   ensures [length] len(result) <= len(a) + len(b) + 1 && len(result) >= len(a) + len(b) - 1
 
-//@ unit proxy_conns props=C05 filter=`proxy\.Proxy\)\.ServeHTTP$|proxy\.newBufferedBody$`
+//@ unit proxy_conns props=C05,C17 filter=`proxy\.Proxy\)\.ServeHTTP$|proxy\.newBufferedBody$`
 //@ func (*ReverseProxy).ServeHTTP
 //@   may_panic
 //@ func createUpstreamRequest
@@ -120,14 +120,29 @@ package proxy
 //@   pure
 //@ extern invoke:(github.com/tmpim/casket/caskethttp/proxy.Upstream).GetTryDuration
 //@   pure
+//@ // "larger ones are cut off at the limit with a too-large error (413 when proxied)": whatever the transport wrapped
+//@ // around it, an attempt that failed because the body reader reported the limit (errors.Is ... ErrMaxBytesExceeded) ends
+//@ // the request with 413. tl(e, t) is 1 exactly when errors.Is(e, t); lastTooLarge is that for the last attempt's error.
+//@ ghost lastTooLarge int
+//@ spec tl(e error, t error) int
+//@ extern errors.Is
+//@   pure
+//@   ensures err == target ==> result
+//@   ensures err == nil ==> result == (target == nil)
+//@ // package initialisation: ErrMaxBytesExceeded = errors.New(...) and is never reassigned (assumed, listed)
+//@ invariant httpserver.ErrMaxBytesExceeded != nil
+//@ axiom (e error, t error) (tl(e, t) == 1) == errors.Is(e, t)
 //@ func (Proxy).ServeHTTP
 //@   may_panic
-//@   requires r != nil && w != nil && lastBuffered == 0
+//@   requires r != nil && w != nil && lastBuffered == 0 && lastTooLarge == 0
+//@   at call (*ReverseProxy).ServeHTTP do lastTooLarge = tl(result, httpserver.ErrMaxBytesExceeded)
+//@   ensures [body_too_large_is_413] lastTooLarge == 1 ==> result0 == 413
 //@   at call newBufferedBody do lastBuffered = result0
 //@   at call invoke:(github.com/tmpim/casket/caskethttp/proxy.Upstream).Select#1 assert [retry_needs_rewindable_body] (upstream.GetHostCount() > 1 && upstream.GetTryDuration() != 0) ==> (outreq.Body == nil || (lastBuffered != 0 && outreq.Body == lastBuffered))
 //@   ensures [conns_balance] unchanged("UpstreamHost.Conns")
 //@   ensures_on_panic [conns_balance_p] unchanged("UpstreamHost.Conns")
 //@   loop 1 invariant unchanged("UpstreamHost.Conns")
+//@   loop 1 invariant [no_too_large_error_carried_into_a_retry] lastTooLarge != 1
 
 //@ unit upstream_request props=C04 filter=`proxy\.createUpstreamRequest$`
 //@ spec canon(s string) string
